@@ -11,6 +11,7 @@
 import json, os, random, re, time, hashlib, binascii, copy, shutil
 import vcommon as V
 
+READY = True
 PROPS = {
  'C11': dict(level='model_checking', design='DESIGN.md 6 C11, A.7; notes/fam_proto.md',
    text='Proto.tla transcribes Request.Read + ServeOnce + Request.Process + StorageClient as a decision procedure over abstract '
